@@ -67,6 +67,8 @@ def register(db):
         fn=MD + "__execute_callbacks", serves=["C16", "C13", "C02"], setup=lazy_state,
         ghost_init={"cb_calls": "int", "callback_fails": "bool", "trace": "events", "called": "seq[func[Callback]]"},
         lets={"exp": "expected_callbacks(self)"},
+        covers={"two_callbacks_with_store": "len(self._callbacks) >= 3 and ghost.cb_calls == old(ghost.cb_calls) + len(self._callbacks)",
+                "no_store": f"not is_insert_partial({LAZY}, self._callbacks) and len(self._callbacks) >= 1"},
         ensures={"all_called": "ghost.cb_calls == old(ghost.cb_calls) + len(self._callbacks)",
                  # registration order, the result store taking the place of the latest set_result / set_exception call
                  "in_registration_order_store_in_place": "ghost.called == old(ghost.called) + exp",
@@ -76,7 +78,7 @@ def register(db):
         loops={0: LoopInv(header="for c in self._callbacks",
                           invariant=["ghost.cb_calls == old(ghost.cb_calls) + i",
                                      "ghost.called == old(ghost.called) + self._callbacks[0:i]",
-                                     "self._callbacks == exp"], ghost={"index": "i"},
+                                     "self._callbacks == exp"], ghost={"index": "i", "prefix_lemma": True},
                           modifies={"ghost.cb_calls": None, "ghost.called": None})},
     )
 
